@@ -6,7 +6,8 @@ import os
 
 from harness.srcgen import pylite
 
-OPS = {'zero': '0', 'fold': 'src_fold_res'}
+OPS = {'zero': '0', 'fold': 'src_fold_res', 'list_get': 'src_list_get', 'list_index': 'src_list_index',
+       'list_insert': 'src_list_insert'}
 
 HEADER = '''(* GENERATED on every run by harness/srcgen (pylite.py, graph.py) from the source text of src/pjplan/task.py - do not
    edit.  A Task object is its number in the heap of Graph/Model.v; `t.__children`, `t.children`, `t.predecessors`,
@@ -22,6 +23,26 @@ Fixpoint src_fold_res {S A : Type} (f : S -> A -> res S) (l : list A) (s : S) : 
   | [] => Ok s
   | a :: r => do s' <- f s a; src_fold_res f r s'
   end.
+
+(* Python's list operations used by the list facades: lst[i] (negative from the end, IndexError outside),
+   lst.index(x) (ValueError when absent), lst.insert(i, x) (the position is clipped to the list) *)
+Definition src_list_get {A : Type} (l : list A) (i : Z) : res A :=
+  let n := Z.of_nat (length l) in
+  let j := if i <? 0 then n + i else i in
+  if (0 <=? j) && (j <? n) then match nth_error l (Z.to_nat j) with Some x => Ok x | None => Crash IndexError end
+  else Crash IndexError.
+
+Fixpoint src_index_from (l : list obj) (x : obj) (k : Z) : res Z :=
+  match l with
+  | [] => Crash ValueError
+  | y :: r => if Nat.eqb y x then Ok k else src_index_from r x (k + 1)
+  end.
+Definition src_list_index (l : list obj) (x : obj) : res Z := src_index_from l x 0.
+
+Definition src_list_insert (i : Z) (x : obj) (l : list obj) : list obj :=
+  let n := Z.of_nat (length l) in
+  let j := if i <? 0 then Z.max 0 (n + i) else Z.min i n in
+  firstn (Z.to_nat j) l ++ x :: skipn (Z.to_nat j) l.
 
 '''
 
@@ -174,6 +195,90 @@ SPECS += [
 ]
 
 
+# ---- sixth tranche: the list facades (task.children / wbs.roots, task.predecessors, task.successors) -----------------
+# A facade is taken as it comes from the getter: its `_list` IS the private list of the owner task (ASSERTS below check
+# that the getters and constructors say so and that indexing / iterating the facade goes to `_list`); the private lists
+# are only ever rewritten in place (slice assignment), which is part of the translated setters.
+OPT = ('option', 'obj')
+NOT_NONE = {'_check_not_none': ('apply', 'src_check_not_none', ('fun', [OPT], 'unit', True), [0])}
+
+
+def children_facade(func, coq, params, signature, ret, **more):
+    sp = dict(file='task.py', cls='_ChildrenList', func=func, coq_name=coq, heap='h', state='h',
+              obj_attrs=ATTRS_W2, obj_writes=WRITES2,
+              fields={'self.__parent': ('o', 'obj'), 'self.__setter': ('tt', 'unit')},
+              rewrite={'self._list': 'self.__parent.__children'}, self_is='self.__parent.__children',
+              prop_setters={'parent': ('src_set_parent fuel wroots', OPT), 'children': ('src_set_children fuel', LOO)},
+              params=dict(params, h=('h', 'heap')), signature=signature, ret=ret,
+              calls=dict(NOT_NONE, **{'_to_list': ARG_CALLS['_to_list']}))
+    sp.update(more)
+    return sp
+
+
+def links_facade(cls, field, prop, setter, func, coq, ret):
+    return dict(file='task.py', cls=cls, func=func, coq_name=coq, heap='h', state='h',
+                obj_attrs=ATTRS_W2, obj_writes=WRITES2, fields={'self.__parent': ('t', 'obj')},
+                rewrite={'self._list': 'self.__parent.' + field}, self_is='self.__parent.' + field,
+                prop_setters={prop: (setter + ' fuel', LOO)},
+                params={'task': ('x', OPT), 'h': ('h', 'heap')},
+                signature=[('fuel', 'nat'), ('h', 'heap'), ('t', 'obj'), ('x', OPT)], ret=ret, calls=dict(NOT_NONE))
+
+
+FW = [('fuel', 'nat'), ('wroots', OBJS), ('h', 'heap'), ('o', 'obj')]
+SPECS += [
+    dict(file='task.py', cls=None, func='_check_not_none', coq_name='src_check_not_none',
+         params={'obj': ('x', OPT)}, ignored_params=('name',), signature=[('x', OPT)], ret='unit'),
+    # children.move(tasks, before=, after=): the private list of the owner, rewritten element by element
+    children_facade('move', 'src_ch_move', {'tasks': ('tasks', LOO), 'before': ('before', OPT), 'after': ('after', OPT)},
+                    [('h', 'heap'), ('o', 'obj'), ('tasks', LOO), ('before', OPT), ('after', OPT)], 'unit',
+                    locals={'tasks': OBJS}, joins=True),
+    children_facade('append', 'src_ch_append', {'task': ('task', OPT)}, FW + [('task', OPT)], 'unit'),
+    children_facade('remove', 'src_ch_remove', {'task': ('task', OPT)}, FW + [('task', OPT)], 'bool'),
+    children_facade('insert', 'src_ch_insert', {'index': ('index', 'Z'), 'task': ('task', OPT)},
+                    FW + [('index', 'Z'), ('task', OPT)], 'unit',
+                    self_mutators={'move': ('src_ch_move $H o', [('tasks', ('tasklike',)), ('before', OPT), ('after', OPT)])}),
+    children_facade('reorder', 'src_ch_reorder', {'ids': ('ids', ('list', 'Z'))},
+                    [('h', 'heap'), ('o', 'obj'), ('ids', ('list', 'Z'))], 'unit',
+                    locals={'_all': OBJS, 'new_list': OBJS}),
+    links_facade('_PredecessorsList', '__predecessors', 'predecessors', 'src_set_predecessors', 'append', 'src_pred_append', 'unit'),
+    links_facade('_PredecessorsList', '__predecessors', 'predecessors', 'src_set_predecessors', 'remove', 'src_pred_remove', 'bool'),
+    links_facade('_SuccessorsList', '__successors', 'successors', 'src_set_successors', 'append', 'src_succ_append', 'unit'),
+    links_facade('_SuccessorsList', '__successors', 'successors', 'src_set_successors', 'remove', 'src_succ_remove', 'bool'),
+]
+
+# what the facade translation takes for granted, checked against the source text on every run: (class, function,
+# decorator, the exact statements of the body after the docstring)
+ASSERTS = [
+    ('_ImmutableTaskList', '__init__', None, ['self._list = _list']),
+    ('_ImmutableTaskList', '__iter__', None, ['return iter(self._list)']),
+    ('_ImmutableTaskList', '__getitem__', None, ['return self._list.__getitem__(query)']),
+    ('_TaskList', '__init__', None, ['super().__init__(_list)']),
+    ('_ChildrenList', '__init__', None, ['super().__init__(_list)', 'self.__parent = parent', 'self.__setter = _setter']),
+    ('_PredecessorsList', '__init__', None, ['super().__init__(_list)', 'self.__parent = parent']),
+    ('_SuccessorsList', '__init__', None, ['super().__init__(_list)', 'self.__parent = parent']),
+    ('Task', 'children', 'property', ['return _ChildrenList(self, self.__children, self.__set_children)']),
+    ('Task', 'predecessors', 'property', ['return _PredecessorsList(self, self.__predecessors)']),
+    ('Task', 'successors', 'property', ['return _SuccessorsList(self, self.__successors)']),
+]
+
+
+def check_asserts(src):
+    import ast
+    problems = []
+    tree = ast.parse(src)
+    for cls, func, deco, want in ASSERTS:
+        try:
+            fn = pylite.find_function(tree, cls, func, None, deco)
+        except pylite.Unsupported as e:
+            problems.append('task.py %s.%s: %s' % (cls, func, e))
+            continue
+        body = [st for st in fn.body if not (isinstance(st, ast.Expr) and isinstance(st.value, ast.Constant) and isinstance(st.value.value, str))]
+        got = [ast.unparse(st) for st in body]
+        if got != want:
+            problems.append('task.py %s.%s: the facade translation assumes the body %r, the source says %r' % (cls, func, want, got))
+    return problems
+
+
 def wbs_root(tr, e, env, k):
     """self.__wbs._root(): the hidden root task of the owner WBS (the owner is known to be set where this is called)"""
     def with_w(w, tw):
@@ -195,6 +300,7 @@ def emit(repo):
             src = f.read()
     except OSError as e:
         return '', ['task.py: %s' % e]
+    problems += check_asserts(src)
     for sp in SPECS:
         try:
             where = '%s%s%s' % ((sp['cls'] + '.') if sp.get('cls') else '', (sp['nested_in'] + '.') if sp.get('nested_in') else '', sp['func'])
